@@ -1,4 +1,4 @@
-\* tree T4 (4 honest producers, producer 3 cut off and building alone from genesis): one observer, no restart: the LIB veto holds
+\* tree T4 (4 honest producers, producer 3 cut off and building alone from genesis): one observer, 2 restarts: the LIB veto holds at every point, all properties
 SPECIFICATION Spec
 CONSTANTS
   N = 4
@@ -6,10 +6,10 @@ CONSTANTS
   Nodes <- Obs1
   Blk0 <- T4
   MaxBlocks = 11
-  MaxRestarts = 0
+  MaxRestarts = 2
   ByzMode = "branch"
   ByzRanges <- R123
-  Fixes <- NoFix
+  Fixes <- AllFixes
 VIEW view
 INVARIANTS TypeOK LibOnMain ConfirmsOnMain Agreement HonestConfirms
 PROPERTIES LibMonotone Final NoForkBelowLib LibQuorum RestoreEqualsRecompute
